@@ -4,6 +4,8 @@ import (
 	"cmp"
 	"slices"
 	"time"
+
+	"example.com/scion-time/base/timemath"
 )
 
 type Measurement struct {
@@ -14,7 +16,8 @@ type Measurement struct {
 
 func midpoint(x, y Measurement) Measurement {
 	var m Measurement
-	m.Offset = x.Offset + (y.Offset-x.Offset)/2
+	// offsets more than math.MaxInt64 apart: their difference overflows
+	m.Offset = timemath.Midpoint(x.Offset, y.Offset)
 	if !x.Timestamp.After(y.Timestamp) {
 		m.Timestamp = x.Timestamp.Add(y.Timestamp.Sub(x.Timestamp) / 2)
 	} else {
